@@ -23,6 +23,13 @@ Theorem C03_no_server_deadlines : serverMainHTTPCalls = ["http.Serve"] /\ server
 Proof. repeat split; reflexivity. Qed.
 Print Assumptions C03_no_server_deadlines.
 
+(* the proxy's relay step of the model (every field that is not hop-by-hop, with all of its values, in order) is the loop
+   in the source: the slice of values is handed over as it is *)
+Theorem C03_proxy_relays_all_values :
+  frontendHeaderRelay = ["if isHopByHopHeader(name) { continue }"; "w.Header()[name] = vals"]%string.
+Proof. reflexivity. Qed.
+Print Assumptions C03_proxy_relays_all_values.
+
 (* For every backend response - any final status outside 1xx, any header fields,
    any number of interim 1xx responses before it, any trailers - the client
    receives the final status and, for every end-to-end field name, exactly the
